@@ -113,6 +113,13 @@ def run(ctx):
         for rep in range(max(16, 4 * reps)):
             runs.append(Run("so%d_%d" % (ni, rep), nodef_files, argv))
             meta.append((len(schemas) - 1, "mappings-stdout-%d-run-%d" % (ni, rep)))
+    # tag lists that name a tag twice (and other repeated flag values): every run gives the same bytes
+    for ti, extra in enumerate((["--tags", "json,yaml,mapstructure,json"], ["--tags", "yaml,json,yaml,toml,json"], ["--capitalization", "ID,URL,ID,Http,URL"],
+                                ["--resolve-extension", ".json,.yaml,.json", "--yaml-extension", ".yaml,.yml,.yaml"])):
+        schemas.append({"repeated-flag-values": extra})
+        for rep in range(max(16, 4 * reps)):
+            runs.append(Run("rt%d_%d" % (ti, rep), {"in/s.json": json.dumps(msch)}, ["-p", "example.com/t"] + extra + ["in/s.json"]))
+            meta.append((len(schemas) - 1, "mappings-repeated-values-%d-run-%d" % (ti, rep)))
     # multi-file layouts: extension-less references with several candidate files, several resolve / yaml extensions, several file arguments
     item_j = {"type": "object", "properties": {"price": {"type": "number"}, "currency": {"type": "string"}}, "required": ["price", "currency"]}
     item_y = "type: object\nproperties:\n  price:\n    type: number\nrequired: [price]\n"
